@@ -968,4 +968,119 @@ theorem runLoop_sem (g : Graph) (H0 : List Nat) (hwf : GraphWF g) (hroot : (g.no
       · exact hev x hx
       · rw [List.mem_singleton.mp hx]; exact Or.inr (StartSem.of_plain (plain_raise _ _))
 
+/-! ## the end of a test: report, record, continue -/
+
+/-- the abstract effect of "the stub reports, the result replaces the placeholder" on `Sem`: the store gains the set
+states of `n` in `w`'s pool iff `produced`; the placeholder `tag` of `n` is replaced by `res`, which passes only if
+`produced`.  Afterwards `Sem` holds again and the set states of `n` are sourced. -/
+theorem Sem.record {g : Graph} {store0 : List (String × List (String × String))} {s sb : State} (sc : SemCtx g store0)
+    (j : Sem g store0 s) (w n tag : Nat) (res : Result) (produced : Prop)
+    (hn : n < g.nodes.length) (hf : (g.node n).flat = false) (ho : (g.node n).owner = some w) (htag : 1 ≤ tag)
+    (hstore : ∀ loc vs, vs ∈ storeGet sb.store loc ↔
+      vs ∈ storeGet s.store loc ∨ (produced ∧ loc = (g.worker w).id ∧ vs ∈ (g.node n).sets))
+    (hfin : ∀ m, (sb.nd m).finished = (s.nd m).finished)
+    (hres : ∀ m, m ≠ n → (sb.nd m).results = (s.nd m).results)
+    (hresn : (sb.nd n).results = ((s.nd n).results ++ [res]).filter (fun r => !(r.status == "UNKNOWN" && r.tag == tag)))
+    (hname : res.name = (g.node n).name) (hrtag : res.tag = 0) (hpass : res.status = "PASS" → produced) :
+    Sem g store0 sb ∧ ∀ vs ∈ (g.node n).sets, Src g sb n vs := by
+  have hresmem : res ∈ (sb.nd n).results := by
+    rw [hresn]
+    refine List.mem_filter.mpr ⟨List.mem_append_right _ (List.mem_singleton.mpr rfl), ?_⟩
+    have : (res.tag == tag) = false := by rw [hrtag]; simp; omega
+    simp [this]
+  have hresS : res ∈ sharedResults g sb n := mem_sharedResults g sb n n res hn hf rfl hresmem
+  have hsrcn : ∀ vs ∈ (g.node n).sets, Src g sb n vs := by
+    intro vs hvs
+    by_cases hst : res.status = "PASS"
+    · exact Or.inr (Or.inl ⟨w, listed_of_pass sc.hO sc.hy.ownersReal hn hf ho hresS hname hst,
+        (hstore _ vs).mpr (Or.inr ⟨hpass hst, rfl, hvs⟩)⟩)
+    · exact Or.inr (Or.inr ⟨res, hresS, hst⟩)
+  have hhas : ∀ q, HasRes g s q → HasRes g sb q := by
+    intro q ⟨r, hr, hrn⟩
+    by_cases hq : q = n
+    · subst hq; exact ⟨res, hresmem, hname⟩
+    · exact ⟨r, by rw [hres q hq]; exact hr, hrn⟩
+  refine ⟨⟨fun loc vs h => ?_, fun p hp hfp hfinp vs hvs => ?_⟩, hsrcn⟩
+  · rcases (hstore loc vs).mp h with h | ⟨_, h1, h2⟩
+    · rcases j.prov loc vs h with h' | ⟨u, q, h1, h2, h3, h4, h5, h6⟩
+      · exact Or.inl h'
+      · exact Or.inr ⟨u, q, h1, h2, h3, h4, h5, hhas q h6⟩
+    · exact Or.inr ⟨w, n, h1, hn, hf, ho, h2, res, hresmem, hname⟩
+  · by_cases hc : (g.node n).cls = (g.node p).cls
+    · exact (hsrcn vs (by rw [sc.hy.setsClass n hn p hp hc]; exact hvs)).congr hn hp hf hfp hc
+    · rw [hfin] at hfinp
+      have hsame : ∀ r, r ∈ sharedResults g s p → r ∈ sharedResults g sb p := by
+        intro r hr
+        rw [mem_sharedResults_iff] at hr ⊢
+        obtain ⟨i, hi, hri⟩ := hr
+        have hin : i ≠ n := by
+          intro hin
+          rw [hin] at hi
+          exact hc ((mem_copies_iff g p n hp hfp).mp hi).2
+        exact ⟨i, hi, by rw [hres i hin]; exact hri⟩
+      rcases j.fin p hp hfp hfinp vs hvs with h | ⟨u, hu, h⟩ | ⟨r, hr, h⟩
+      · exact Or.inl ((hstore _ vs).mpr (Or.inl h))
+      · refine Or.inr (Or.inl ⟨u, ?_, (hstore _ vs).mpr (Or.inl h)⟩)
+        rw [mem_listed] at hu ⊢
+        obtain ⟨r, hr, h1, h2⟩ := hu
+        exact ⟨r, hsame r hr, h1, h2⟩
+      · exact Or.inr (Or.inr ⟨r, hsame r hr, h⟩)
+
+/-- what recording does to the fields `Sem` reads -/
+theorem recordResultR_eff (sa : State) (w n : Nat) (name uid : String) (tag : Nat) (st0 : String) (dur : Nat)
+    (hn : n < sa.nodes.length) :
+    ∃ res : Result, res.name = name ∧ res.tag = 0 ∧ (res.status = "PASS" → st0 = "PASS") ∧
+      (recordResultR sa w n .plain name uid tag st0 dur).1.store = sa.store ∧
+      (recordResultR sa w n .plain name uid tag st0 dur).1.hidden = sa.hidden ∧
+      (∀ m, ((recordResultR sa w n .plain name uid tag st0 dur).1.nd m).finished = (sa.nd m).finished) ∧
+      (∀ m, m ≠ n → ((recordResultR sa w n .plain name uid tag st0 dur).1.nd m).results = (sa.nd m).results) ∧
+      ((recordResultR sa w n .plain name uid tag st0 dur).1.nd n).results =
+        ((sa.nd n).results ++ [res]).filter (fun r => !(r.status == "UNKNOWN" && r.tag == tag)) := by
+  unfold recordResultR
+  have e1 : (Phase.plain == Phase.pre) = false := rfl
+  simp only [e1, Bool.false_eq_true, if_false]
+  generalize hst : (if (st0 == "PASS" && decide (4 * dur > 5 * _)) = true then "WARN" else st0) = st'
+  have hw : ∀ c : Bool, (if c = true then "WARN" else st0) = "PASS" → st0 = "PASS" := by
+    intro c h
+    cases c
+    · simpa using h
+    · simp at h
+  have hpass : st' = "PASS" → st0 = "PASS" := by
+    intro h
+    rw [← hst] at h
+    exact hw _ h
+  generalize hX : (if (st' != st0) = true then
+      { sa with jobResults := sa.jobResults.map (fun r => if (r.1 == name && r.2.1 == uid) = true then (r.1, r.2.1, st', r.2.2.2) else r) }
+    else sa) = X
+  have hXs : X.store = sa.store ∧ X.hidden = sa.hidden ∧ X.nodes = sa.nodes := by
+    rw [← hX]; split <;> exact ⟨rfl, rfl, rfl⟩
+  have hXnd : ∀ m, X.nd m = sa.nd m := fun m => by unfold State.nd; rw [hXs.2.2]
+  refine ⟨{ name := name, status := st', uid := uid, dur := dur }, rfl, rfl, hpass, hXs.1, hXs.2.1, fun m => ?_, fun m hm => ?_, ?_⟩
+  · rw [← hXnd m]
+    refine nd_setNd_proj (·.finished) X n _ ?_ m
+    exact fun _ => rfl
+  · rw [← hXnd m]
+    show ((X.setNd n _).nd m).results = _
+    rw [nd_setNd_ne X n m _ hm]
+  · show ((X.setNd n _).nd n).results = _
+    rw [nd_setNd_eq X n _ (by rw [hXs.2.2]; exact hn), hXnd n]
+
+/-- what the report of status `st` at `wait = 0` does to the fields `Sem` reads -/
+theorem reportOutcomeR_eff (g : Graph) (s : State) (w n : Nat) (uid st : String) (dur : Nat) :
+    (reportOutcomeR g s w n .plain uid 0 ⟨some st, dur⟩).1.nodes = s.nodes ∧
+    (reportOutcomeR g s w n .plain uid 0 ⟨some st, dur⟩).1.hidden = s.hidden ∧
+    (reportOutcomeR g s w n .plain uid 0 ⟨some st, dur⟩).1.jobResults = s.jobResults ++ [((g.node n).name, uid, st, dur)] ∧
+    ∀ loc vs, vs ∈ storeGet (reportOutcomeR g s w n .plain uid 0 ⟨some st, dur⟩).1.store loc ↔
+      vs ∈ storeGet s.store loc ∨ (((st == "PASS" || st == "WARN") = true) ∧ loc = (g.worker w).id ∧ vs ∈ (g.node n).sets) := by
+  unfold reportOutcomeR
+  have e1 : (Phase.plain == Phase.pre) = false := rfl
+  have e2 : (Phase.plain != Phase.pre) = true := rfl
+  simp only [e1, e2, Bool.false_eq_true, if_false, BEq.rfl, if_true, Bool.and_true]
+  by_cases hp : (st == "PASS" || st == "WARN") = true
+  · simp only [hp, if_true, true_and]
+    refine ⟨rfl, rfl, rfl, fun loc vs => ?_⟩
+    exact mem_storeGet_produce g _ n w loc vs
+  · simp only [hp, Bool.false_eq_true, if_false]
+    exact ⟨trivial, trivial, trivial, fun loc vs => ⟨Or.inl, fun h => h.elim id (fun h' => h'.1.elim)⟩⟩
+
 end I2N.Trav
